@@ -210,7 +210,8 @@ PROPS["C05"] = dict(
     suites=[dict(suite="strategy", corr=["diff"], monitors=["mon_rr", "mon_wrr_exact", "mon_wrr_bound", "mon_wrr_proved", "mon_lc"],
                  classifiers={"wrr-flap-beyond-two-ratio": "cls_wrr_flap", "wrr-stale-after-removal": "cls_wrr_removed"}, nontrivial="nt_c05"),
             # "weights below 1 count as 1" on every path a backend can be added by (configuration and admin API)
-            dict(suite="lbseq", corr=["diff_admin"], monitors=["mon_c11"], classifiers={}, nontrivial="nt_c11")],
+            # ... and least_connections on the balancer's own gauges (requests in flight across ejections and recoveries)
+            dict(suite="lbseq", corr=["diff_admin", "diff_begin"], monitors=["mon_c11", "mon_c02_disp"], classifiers={}, nontrivial="nt_c11")],
     rule="real RoundRobin / WeightedRoundRobin / LeastConnections strategy objects: pools 1..8, weights 1..6, stretches of picks "
          "separated by add / remove / flag changes, in-flight counts 0..3, concurrent pickers (2..64 goroutines, 6720 picks) for the "
          "exact round-robin counts; non-trivial = n >= 2 and (WRR) unequal weights or a preceding membership/health event, "
